@@ -5,7 +5,7 @@ from . import c02
 ID = "C19"
 MODULES = ["Helios.Props.C19", "Helios.Props.C20", "Helios.Props.Facts"]
 THEOREMS = ["Helios.Shut.inv_step", "Helios.Shut.stop_safe", "Helios.Shut.stop_no_deadlock",
-            "Helios.Pool.shutdown_closes_all", "Helios.Pool.down_forever", "Helios.Facts.shutdown_protocol"]
+            "Helios.Pool.shutdown_closes_all", "Helios.Pool.down_forever", "Helios.Facts.shutdown_protocol", "Helios.Facts.signals_stay_registered"]
 
 
 def check(ctx):
